@@ -1,13 +1,55 @@
-// (header with command and output is filled in below)
+// C17 - native reproduction of the finding of harness c17_get_next_retry_loses_nothing
+// (/verif/harness/runtime/sync_resp_kernels.rs, failing check: "assertion failed: m2 == m").
+//
+// Defect: SyncResponder::get_commands writes the resume position of a partially sent segment into
+// `self.to_send[i]` BEFORE get_next (and push) know whether the response fits into the target
+// buffer. When `poll` then fails (Serialize(SerializeBufferFull) / BufferTooSmall), message_index
+// and next_send are untouched - "so the caller can retry with a larger buffer without losing
+// commands" - but the retry starts that segment at the advanced position: the commands of the
+// segment that the failed response would have carried are never sent in this session, and the
+// requester receives a command without its parent.
+//
+// Real code, real storage (storage::linear::testing::MemStorageProvider), the crate's own test
+// policy; default feature set (COMMAND_RESPONSE_MAX = 100, no low-mem-usage needed): responder
+// graph = 120 commands in two 60-command segments, peer has nothing. Reference session (large
+// buffer): 2 responses, 120 commands. Same session with a 16-byte target on the first poll and a
+// full-size buffer afterwards: 1 response with 80 commands (segment 1 + the LAST 20 of segment
+// 2), commands 60..=99 never arrive, add_commands fails with NoSuchParent.
+//
+// How to run (unchanged tree, scratch copy; the module below is an in-crate test, appended to
+// crates/aranya-runtime/src/sync/responder.rs):
+//
+//   rsync -a --exclude target --exclude .git /repo/ /var/tmp/repro/ && cd /var/tmp/repro
+//   cat /verif/findings/c17_get_next_retry_native_test.rs >> crates/aranya-runtime/src/sync/responder.rs
+//   CARGO_NET_OFFLINE=true cargo test -p aranya-runtime --features testing,libc --lib \
+//       c17_get_next_retry_native -- --nocapture
+//
+// Output on /repo HEAD 8463947 (sync/responder.rs unchanged by the recorded fixes), 2026-09-22:
+//
+//   running 1 test
+//   reference session: 2 responses, 120 commands, first orphan: None, add_commands error: None, dest == source: true
+//   retried session: first poll error: Some("Serialize(SerializeBufferFull)"); then 1 responses, 80 commands, first orphan at position Some(60), add_commands error: Some("NoSuchParent(CmdId(DGmHo2kMUtVefXZeVZ8jXwosd5me7zirTpbu9DgWhpgU))"), dest == source: false
+//   commands of the reference session (by arrival position) never delivered after the retry: 40 of 120: [60, 61, ..., 99]
+//   thread 'sync::responder::c17_get_next_retry_native::retry_after_small_buffer_delivers_the_same_commands' panicked at crates/aranya-runtime/src/sync/responder.rs:1181:9:
+//   assertion `left == right` failed: after a failed poll + retry the session delivered fewer commands than the same session polled with a large buffer
+//     left: 80
+//    right: 120
+//   test sync::responder::c17_get_next_retry_native::retry_after_small_buffer_delivers_the_same_commands ... FAILED
+//   test result: FAILED. 0 passed; 1 failed; 0 ignored; 0 measured; 157 filtered out; finished in 2.80s
+//
+// Fix sketch: let get_commands return the resume location together with the index and apply it
+// in get_next / push only where next_send and message_index are committed.
 #[cfg(test)]
 mod c17_get_next_retry_native {
     #![allow(clippy::arithmetic_side_effects)]
+
+    use alloc::vec::Vec as AVec;
 
     use aranya_crypto::Rng;
 
     use super::*;
     use crate::{
-        ClientState, Command as _, MemSpill, RuntimeBuffers,
+        ClientState, MemSpill, RuntimeBuffers,
         storage::linear::testing::MemStorageProvider,
         sync::{MAX_SYNC_MESSAGE_SIZE, SyncIncoming, SyncRequester},
         testing::protocol::{TestActions, TestPolicyStore, TestSink},
@@ -96,7 +138,7 @@ mod c17_get_next_retry_native {
 
     /// What the requester saw in one session: (id, parent) of every command, in arrival order.
     struct Seen {
-        cmds: Vec<(CmdId, Prior<Address>)>,
+        cmds: AVec<(CmdId, Prior<Address>)>,
         responses: usize,
         first_poll_error: Option<alloc::string::String>,
         add_commands_error: Option<alloc::string::String>,
@@ -130,7 +172,7 @@ mod c17_get_next_retry_native {
         }
 
         let mut seen = Seen {
-            cmds: Vec::new(),
+            cmds: AVec::new(),
             responses: 0,
             first_poll_error: None,
             add_commands_error: None,
@@ -184,8 +226,8 @@ mod c17_get_next_retry_native {
     /// is absent (init).
     fn first_orphan(seen: &Seen) -> Option<usize> {
         for (i, (_, parent)) in seen.cmds.iter().enumerate() {
-            let parents: Vec<Address> = match parent {
-                Prior::None => Vec::new(),
+            let parents: AVec<Address> = match parent {
+                Prior::None => AVec::new(),
                 Prior::Single(a) => alloc::vec![*a],
                 Prior::Merge(a, b) => alloc::vec![*a, *b],
             };
@@ -232,7 +274,7 @@ mod c17_get_next_retry_native {
             retried.add_commands_error,
             retried.dest_matches_source
         );
-        let missing: Vec<usize> = (0..total)
+        let missing: AVec<usize> = (0..total)
             .filter(|i| !retried.cmds.iter().any(|(id, _)| *id == reference.cmds[*i].0))
             .collect();
         std::eprintln!(
